@@ -552,7 +552,7 @@ fn date_cases(rng: &mut Rng) -> Vec<Case> {
 }
 
 fn times(rng: &mut Rng) -> Vec<(String, (i64, i64, i64, i64))> {
-    let mut v: Vec<(String, (i64, i64, i64, i64))> = vec![("midnight".into(), (0, 0, 0, 0)), ("last_second".into(), (23, 59, 59, 0)), ("last_microsecond".into(), (23, 59, 59, 999_999)), ("one_microsecond".into(), (0, 0, 0, 1)), ("half_second".into(), (12, 34, 56, 500_000))];
+    let mut v: Vec<(String, (i64, i64, i64, i64))> = vec![("midnight".into(), (0, 0, 0, 0)), ("last_second".into(), (23, 59, 59, 0)), ("last_microsecond".into(), (23, 59, 59, 999_999)), ("one_microsecond".into(), (0, 0, 0, 1)), ("half_second".into(), (12, 34, 56, 500_000)), ("hundredths".into(), (1, 2, 3, 120_000)), ("millis".into(), (4, 5, 6, 7_000)), ("six_digit_fraction".into(), (7, 8, 9, 123_456))];
     for _ in 0..2 {
         v.push(("random".into(), (rng.range(0, 23), rng.range(0, 59), rng.range(0, 59), rng.range(0, 999_999))));
     }
@@ -562,7 +562,9 @@ fn time_str(h: i64, mi: i64, s: i64, us: i64) -> String {
     if us == 0 {
         format!("{:02}:{:02}:{:02}", h, mi, s)
     } else {
-        format!("{:02}:{:02}:{:02}.{:06}", h, mi, s, us)
+        // the usual notation: trailing zeros of the fraction are not written ('.5' is half a second)
+        let frac = format!("{:06}", us);
+        format!("{:02}:{:02}:{:02}.{}", h, mi, s, frac.trim_end_matches('0'))
     }
 }
 fn time_cases(rng: &mut Rng) -> Vec<Case> {
